@@ -1,6 +1,7 @@
 (* C09 - Dashes follow the dash pattern along arc length, restarted per subpath.
    PARTIAL: the f32 model is compared bit for bit with the crate and the arc-length statement is evaluated on the crate's
-   output; proved here: a non-positive (or NaN) total paints nothing, the dash state restarts at every MoveTo. *)
+   output; proved here: a non-positive (or NaN) total paints nothing, the dash state restarts at every MoveTo.
+   Further down (DashShape.v): parity of the dash index, whole-on / whole-off subpaths, output op kinds, the cuts of a segment. *)
 Require Import RQ.Base RQ.F32 RQ.Raster RQ.PathF RQ.PathOps RQ.MiscProofs.
 
 Theorem C09_nonpositive_total_paints_nothing_partial : forall arr p off,
